@@ -252,9 +252,19 @@ class CSSMediaRule(cssrule.CSSRuleRules):
                 self._media = oldMedia
                 self._cssRules = oldCssRules
 
+    def _setCssTextOrKeep(self, cssText):
+        "Set `cssText`, keep the current media and rules if it is rejected."
+        oldMedia, oldCssRules = self._media, self._cssRules
+        try:
+            self._setCssText(cssText)
+        except Exception:
+            # raising mode: the new content may have been set in parts
+            self._media, self._cssRules = oldMedia, oldCssRules
+            raise
+
     cssText = property(
         _getCssText,
-        _setCssText,
+        _setCssTextOrKeep,
         doc="(DOM) The parsable textual representation of this rule.",
     )
 
